@@ -867,4 +867,5 @@ func TestC16(t *testing.T) {
 	wg.Wait()
 
 	runSchedulerPart(t, run)
+	runCrossedPart(t, run)
 }
